@@ -1,6 +1,7 @@
 package main
 
 import (
+	"strconv"
 	"fmt"
 	"go/ast"
 	"go/token"
@@ -857,6 +858,7 @@ func ruleMigrateRun(c *Ctx, r *Repo, cmdp *packages.Package) {
 	reached := map[token.Pos]bool{}
 	{
 		d := newDT(info)
+		d.constInts = true // flag sets given a name (const openReplace = os.O_CREATE | ..) print as their value
 		// followed: the private helpers an effect site sits in (not migrateConfig, whose independent
 		// branches are not path-enumerable and which reaches no effect)
 		d.callInline = map[*types.Func]*ast.FuncDecl{}
@@ -902,12 +904,21 @@ func ruleMigrateRun(c *Ctx, r *Repo, cmdp *packages.Package) {
 	for _, oi := range opens {
 		var names []string
 		okFlags := true
+		var numeric int64
 		for _, f := range strings.Split(oi.flags, " | ") {
 			f = strings.TrimSpace(f)
+			if v, err := strconv.ParseInt(f, 10, 64); err == nil {
+				numeric |= v // a named constant of the package, printed as its value
+				continue
+			}
 			if !strings.HasPrefix(f, "os.O_") {
 				okFlags = false
 			}
 			names = append(names, strings.TrimPrefix(f, "os."))
+		}
+		if numeric != 0 || len(names) == 0 {
+			ns, _ := flagNames(numeric)
+			names = append(names, strings.Split(ns, "|")...)
 		}
 		fl := "|" + strings.Join(names, "|") + "|"
 		pos := r.Pos(oi.pos)
